@@ -793,9 +793,6 @@ def _leaf_args(proto):
 def _build_or_reject(r):
     try:
         c = G.build_program(r)
-    except ValueError as e:
-        raise Reject("cirq refuses the recipe: " + str(e).split("\n")[0][:40])
-    try:
         cirq.is_parameterized(c)  # a CircuitOperation resolves its body lazily; an inconsistent param_resolver raises here
     except ValueError as e:
         raise Reject("cirq refuses the recipe: " + str(e).split("\n")[0][:40])
@@ -917,11 +914,16 @@ def oracle_args(r):
     _pending("F16h_numeric_tuple_to_list", "args", r)
     kind = r["kind"]
     if kind == "arg":
-        val = G.build_arg(r["v"])
+        try:
+            val = G.build_arg(r["v"])
+        except ValueError:
+            raise Reject("degenerate expression")
         try:
             msg = AFL.arg_to_proto(val)
         except ValueError as e:
-            raise Reject("arg_to_proto: documented ValueError: " + str(e)[:40])
+            if str(e).startswith("Unrecognized Sympy expression type"):
+                raise Reject("arg_to_proto: documented ValueError: " + str(e)[:40])
+            raise Violation(f"arg_to_proto raised ValueError for a supported value of kind {r['v'][0]}: {str(e)[:80]}")
         msg = program_pb2.Arg.FromString(msg.SerializeToString())
         got = AFL.arg_from_proto(msg)
         _cmp_arg(f"arg {r['v'][0]}", got, val)
@@ -962,7 +964,10 @@ def oracle_args(r):
         if t != g._clifford_tableau or cirq.SingleQubitCliffordGate.from_clifford_tableau(t) != g:
             raise Violation(f"clifford tableau {r['v']} came back different")
         return {"kind": "tableau", "nontrivial": False}
-    g = G.build_gate(r["v"], 2)
+    try:
+        g = G.build_gate(r["v"], 2)
+    except ValueError:
+        raise Reject("degenerate expression")
     msg = AFL.internal_gate_arg_to_proto(g)
     msg = program_pb2.InternalGate.FromString(msg.SerializeToString())
     got = AFL.internal_gate_from_proto(msg)
